@@ -446,3 +446,28 @@ func clip(b []byte) []byte {
 	}
 	return b
 }
+
+// Guarded hands a text to the library the way a caller holding a larger buffer does: as a sub-slice whose capacity
+// reaches into 64 bytes that belong to somebody else. The returned function reports (as a short description, "" if
+// all is well) whether a call wrote into the caller's text or into the bytes behind it - which is what an in-place
+// edit, or an append onto the slice it was given, does.
+func Guarded(text []byte) ([]byte, func() string) {
+	const n = 64
+	buf := make([]byte, len(text)+n)
+	copy(buf, text)
+	for i := len(text); i < len(buf); i++ {
+		buf[i] = 0xA5 ^ byte(i)
+	}
+	in := buf[:len(text) : len(buf)]
+	return in, func() string {
+		for i := len(text); i < len(buf); i++ {
+			if buf[i] != 0xA5^byte(i) {
+				return fmt.Sprintf("bytes behind the text it was given were overwritten (offset +%d)", i-len(text))
+			}
+		}
+		if string(buf[:len(text)]) != string(text) {
+			return "the text it was given was rewritten in place"
+		}
+		return ""
+	}
+}
